@@ -1352,6 +1352,9 @@ def _rand_c04(rng, tier, sc0):
                 nclones -= 1
             elif x < 0.24 and c.get("rot", True):
                 steps.append({"op": "Trigger"})
+            elif x < 0.28 and i % 5 == 2:
+                # reopen_output() on a file that is still in place (a SIGHUP sent for another reason): nothing may be lost
+                steps.append({"op": "Reopen"})
             steps.append({"op": "Log", "len": rng.choice([9, 12, 21, 63, 64, 65, 200, 8192]) if rng.random() < 0.9 else 20000})
         if rng.random() < 0.5:
             steps.append({"op": "Shutdown"})
